@@ -72,6 +72,7 @@ def check(ctx):
         ctx.ob("R13.1", f"{k('new')}|fills-with-loop-variable", "next" in show(e) or e[0] in ("field", "variant", "phi"), body.loc(pubs[0][0]), f"enqueues `{show(e)}` (the iterated id)")
     # who may touch free_list
     allowed = {"new", "alloc_ref", "dealloc_id", "fmt"}
+    READONLY_QUERIES = {"available_elements_count", "debug_info", "max_size", "fmt", "is_empty", "is_full", "len"}
     for f in fx.fns:
         if POOL not in (f.get("impl_self") or "") and "free_list" not in str(f.get("dbg")): 
             pass
@@ -84,7 +85,14 @@ def check(ctx):
                         if any(e != "*" and e[0] == "f" and e[1] == "free_list" and e[3] == POOL for e in pl["p"]): hit = True
         if hit:
             n = f["owner_fn"].split("::")[-1]
-            ctx.ob("R13.1", f"{f['owner_fn']}|touches-free-list", n in allowed, f"{f['file']}:{f['line']}", f"`{n}` accesses the free list; allowed: {sorted(allowed)}")
+            # a read-only length / debug query of the free list (free_slots_count(), is_full(), Debug ...) takes nothing from it and gives nothing back:
+            # only functions that hand the list to something other than its read-only queries are restricted
+            dgf = D.Dag(body)
+            uses = [(b, c) for (b, c) in body.calls if any((lambda e: e[0] in ("ref", "mem") and "free_list" in e[1])(strip_casts(dgf.expr(a))) for a in c["args"])]
+            readonly = bool(uses) and all(c.get("fname") in READONLY_QUERIES for (_, c) in uses) and not any(
+                st[0] == "A" and any(e != "*" and e[0] == "f" and e[1] == "free_list" and e[3] == POOL for e in st[1]["p"]) for b in body.reachable for st in body.stmts(b))
+            ctx.ob("R13.1", f"{f['owner_fn']}|touches-free-list", n in allowed or readonly, f"{f['file']}:{f['line']}",
+                   f"`{n}` accesses the free list ({'read-only queries only' if readonly else 'may take / give ids'}); allowed to take / give: {sorted(allowed)}")
     # ---------------------------------------------------------------- R13.2 inverses
     b1 = Body(fx.fn(k("id_from_ref"))); d1 = D.Dag(b1)
     e = strip_casts(d1.local(0)); s1 = show(e)
